@@ -360,6 +360,62 @@ def _fn_can_shorten(f, path, depth=2):
     return False
 
 
+def _carry_after_pop(f, path, depth=2):
+    """In a helper that shortens a variable-length key (pop/truncate) and then hands the buffer to
+    a fixed-width mutator (a local function taking `&mut [u8]`, which carries and zero-fills):
+    every path from a shortening call to that mutator must re-test the buffer's new last byte
+    (a branch whose condition derives from last()/pop()/is_empty()/len() of the buffer). Returns the
+    offending (body, call) sites."""
+    bad = []
+    if path not in f.bodies or depth < 0:
+        return bad
+    for b in f.family(path):
+        pops = [bi for bi, t in b.calls() if t["f"].get("name") in ("pop", "truncate", "split_off") and callee_matches(t, r"vec::Vec")]
+        fixed = []
+        for bi, t in b.calls():
+            paths = [p for p in mir.callee_paths(t) if p in f.bodies and p != path]
+            if not paths:
+                continue
+            argl = [a[1]["l"] for a in t["a"] if a[0] in ("copy", "move")]
+            if any(b.locals[l]["ty"].startswith("&mut [u8]") for l in argl):
+                fixed.append((bi, t))
+            else:
+                for p in paths:
+                    bad += _carry_after_pop(f, p, depth - 1)
+        for fbi, ft in fixed:
+            for pb in pops:
+                if fbi not in b.reachable(pb):
+                    continue
+                # blocks with a re-test of the buffer
+                tests = set()
+                for bi, blk in enumerate(b.blocks):
+                    tt = blk["t"]
+                    if tt["k"] == "switch" and tt["d"][0] in ("copy", "move"):
+                        for o in trace(b, tt["d"], through_calls=False):
+                            stack = [o]
+                            d0 = 0
+                            while stack and d0 < 12:
+                                d0 += 1
+                                x = stack.pop()
+                                if x.kind == "call":
+                                    if x.data["f"].get("name") in ("last", "pop", "is_empty", "len", "last_mut", "ends_with"):
+                                        tests.add(bi)
+                                    else:
+                                        for a in x.data["a"]:
+                                            if a[0] != "const":
+                                                stack.extend(trace(b, a, through_calls=False))
+                                elif x.kind == "expr" and x.data[0] in ("bin", "un", "discr"):
+                                    ops = [x.data[2], x.data[3]] if x.data[0] == "bin" else ([x.data[2]] if x.data[0] == "un" else [["copy", x.data[1]]])
+                                    for a in ops:
+                                        if a[0] != "const":
+                                            stack.extend(trace(b, a, through_calls=False))
+                # is there a path pop -> fixed avoiding every test block (after the pop block itself)?
+                region = b.reach_from_edges(b.succ()[pb], avoid=tests - {fbi})
+                if fbi in region:
+                    bad.append((b, ft))
+    return bad
+
+
 def r3(ctx):
     f = ctx.facts
     targets = ["store::fs::bounds::RecordsBounds::author_key", "store::fs::bounds::ByKeyBounds::new"]
@@ -411,8 +467,13 @@ def r3(ctx):
                         else:
                             for p in mir.callee_paths(t):
                                 if _fn_can_shorten(f, p):
-                                    ok = True
-                                    why.append("%s can shorten" % p)
+                                    misuse = _carry_after_pop(f, p)
+                                    if misuse:
+                                        why.append("%s shortens the key but then applies the fixed-width carry of `%s` without re-testing the new last byte: "
+                                                   "a prefix ending in two 0xFF bytes gets a zero-padded end bound that admits a neighbouring key" % (p, misuse[0][1]["f"].get("name")))
+                                    else:
+                                        ok = True
+                                        why.append("%s can shorten" % p)
                 # a helper that computes the successor from the prefix by value
                 for o in origs:
                     pass
